@@ -253,6 +253,11 @@ struct Parser {
     pos: usize,
     /// Current nesting depth of `parse_expr` / `parse_type_atom` calls.
     depth: usize,
+    /// Depth of the type that was parsed most recently.
+    ///
+    /// Postfix `?` and chains of `+` and `*` nest types without nesting parser calls;
+    /// types are processed recursively later on, so their depth is limited as well.
+    type_depth: usize,
 }
 
 impl Parser {
@@ -261,6 +266,7 @@ impl Parser {
             tokens,
             pos: 0,
             depth: 0,
+            type_depth: 0,
         }
     }
 
@@ -279,6 +285,18 @@ impl Parser {
     /// Leave a nested expression or type.
     fn leave(&mut self) {
         self.depth -= 1;
+    }
+
+    /// Record the depth of the type that has just been built, failing if it is too deep.
+    fn set_type_depth(&mut self, depth: usize) -> Result<(), ErrorSet> {
+        if depth > MAX_NESTING_DEPTH {
+            return Err(ErrorSet::single(
+                self.current_position(),
+                Error::ParseFailed(Some("nesting too deep".into())),
+            ));
+        }
+        self.type_depth = depth;
+        Ok(())
     }
 
     fn peek(&self) -> Option<&Token> {
@@ -700,10 +718,13 @@ fn parse_literal(p: &mut Parser) -> Result<(Vec<u8>, usize, Position), ErrorSet>
 /// Parse a type expression, left-associative for both + and *
 fn parse_type(p: &mut Parser) -> Result<Option<Type>, ErrorSet> {
     let mut lhs = parse_type_atom(p)?;
+    let mut lhs_depth = p.type_depth;
     loop {
         if p.peek() == Some(&Token::Plus) {
             p.advance();
             let rhs = parse_type_atom(p)?;
+            lhs_depth = 1 + lhs_depth.max(p.type_depth);
+            p.set_type_depth(lhs_depth)?;
             lhs = lhs
                 .zip(rhs)
                 .map(|(l, r)| Type::Sum(Box::new(l), Box::new(r)));
@@ -712,6 +733,8 @@ fn parse_type(p: &mut Parser) -> Result<Option<Type>, ErrorSet> {
         if p.peek() == Some(&Token::Star) {
             p.advance();
             let rhs = parse_type_atom(p)?;
+            lhs_depth = 1 + lhs_depth.max(p.type_depth);
+            p.set_type_depth(lhs_depth)?;
             lhs = lhs
                 .zip(rhs)
                 .map(|(l, r)| Type::Product(Box::new(l), Box::new(r)));
@@ -719,6 +742,7 @@ fn parse_type(p: &mut Parser) -> Result<Option<Type>, ErrorSet> {
         }
         break;
     }
+    p.set_type_depth(lhs_depth)?;
     Ok(lhs)
 }
 
@@ -728,15 +752,22 @@ fn parse_type_atom(p: &mut Parser) -> Result<Option<Type>, ErrorSet> {
     let res = parse_type_atom_nested(p);
     p.leave();
     let mut res = res?;
+    let mut depth = p.type_depth;
     // `A?` is the rendering of the option type `1 + A`
     while p.peek() == Some(&Token::Question) {
         p.advance();
+        depth += 1;
+        p.set_type_depth(depth)?;
         res = res.map(|ty| Type::Sum(Box::new(Type::One), Box::new(ty)));
     }
     Ok(res)
 }
 
 fn parse_type_atom_nested(p: &mut Parser) -> Result<Option<Type>, ErrorSet> {
+    // every atom except a parenthesized type has depth one
+    if p.peek() != Some(&Token::LParen) {
+        p.type_depth = 1;
+    }
     match p.peek().cloned() {
         Some(Token::One) => {
             p.advance();
